@@ -703,21 +703,13 @@ pub fn type_permuted_twin(b: &Board) -> Option<Board> {
 }
 
 /// Interference probe (see WalkOpts::interfere). Everything is guarded; results are ignored.
-pub fn interfere_with(eng: &GameState, mo: &Model) {
+pub fn interfere_with(eng: &GameState, mo: &Model, which: u8) {
     if mo.setup {
         return;
     }
-    let twin = match type_permuted_twin(&mo.board) {
-        Some(t) => t,
-        None => return,
-    };
-    let t = match engine_from_position(&twin, mo.gold_to_move, 7) {
-        Ok(t) => t,
-        Err(_) => return,
-    };
     let own_actions = guard(|| eng.valid_actions_no_rep()).unwrap_or_default();
-    // something unrelated in between, so that whatever was remembered about this state is displaced
-    // before the twin is asked
+    // the state's own has_move with the board of an earlier step, then something unrelated, so that
+    // whatever was remembered about this state is displaced before the look-alike is asked
     let _ = guard(|| {
         if eng.is_play_phase() && eng.current_step() > 0 {
             let _ = eng.has_move(eng.piece_board_for_step(0));
@@ -736,59 +728,73 @@ pub fn interfere_with(eng: &GameState, mo: &Model) {
             }
         }
     });
-    let _ = guard(|| {
-        let _ = t.valid_actions();
-        let _ = t.valid_actions_no_rep();
-        let _ = t.is_terminal();
-        let _ = t.has_move(t.piece_board());
-        let _ = t.can_pass(true);
-        let _ = t.transposition_hash();
-        for a in own_actions.iter() {
-            if let Action::Move(sq, _) = a {
-                if t.piece_board().piece_type_at_square(sq).is_some() {
-                    let _ = t.trapped_animal_for_action(a);
+    // the look-alike asked last decides which kind of shortened key would now be stale
+    match which % 3 {
+        1 => {
+            // the same board with the other side to move
+            let _ = guard(|| {
+                if let Ok(o) = engine_from_position(&mo.board, !mo.gold_to_move, 9) {
+                    let _ = o.valid_actions();
+                    let _ = o.valid_actions_no_rep();
+                    let _ = o.is_terminal();
+                    let _ = o.transposition_hash();
+                    for a in own_actions.iter() {
+                        if let Action::Move(..) = a {
+                            let _ = o.trapped_animal_for_action(a);
+                        }
+                    }
                 }
-            }
+            });
         }
-        for a in t.valid_actions_no_rep().iter().take(40) {
-            let _ = t.trapped_animal_for_action(a);
-            let _ = t.take_action(a);
-        }
-    });
-    // the same board with the other side to move, and at another step of the turn (anything remembered
-    // under a key that leaves out the side or the step is now stale for the state itself)
-    let _ = guard(|| {
-        if let Ok(o) = engine_from_position(&mo.board, !mo.gold_to_move, 9) {
-            let _ = o.valid_actions();
-            let _ = o.is_terminal();
-            let _ = o.transposition_hash();
-        }
-        let other_step = crate::special::build_state(&mo.board, mo.gold_to_move, (mo.step + 1) % 4, arimaa_engine_step::PushPullState::None);
-        let _ = other_step.valid_actions();
-        let _ = other_step.valid_actions_no_rep();
-        let _ = other_step.is_terminal();
-        let _ = other_step.can_pass(true);
-        let _ = other_step.transposition_hash();
-        for a in other_step.valid_actions_no_rep().iter().take(30) {
-            let _ = other_step.trapped_animal_for_action(a);
-        }
-    });
-    let _ = guard(|| {
-        let _ = t.valid_actions();
-        let _ = t.valid_actions_no_rep();
-        let _ = t.is_terminal();
-        for a in own_actions.iter() {
-            if let Action::Move(sq, _) = a {
-                if t.piece_board().piece_type_at_square(sq).is_some() {
-                    let _ = t.trapped_animal_for_action(a);
+        2 => {
+            // the same board and side at another step of the turn
+            let _ = guard(|| {
+                let other_step = crate::special::build_state(&mo.board, mo.gold_to_move, (mo.step + 1) % 4, arimaa_engine_step::PushPullState::None);
+                let _ = other_step.valid_actions();
+                let _ = other_step.valid_actions_no_rep();
+                let _ = other_step.is_terminal();
+                let _ = other_step.can_pass(true);
+                let _ = other_step.transposition_hash();
+                for a in other_step.valid_actions_no_rep().iter().take(30) {
+                    let _ = other_step.trapped_animal_for_action(a);
                 }
-            }
+            });
         }
-    });
-    // the state's own has_move with a board that is not its own (the twin's, asked last)
-    let _ = guard(|| {
-        let _ = eng.has_move(t.piece_board());
-    });
+        _ => {
+            // a type-permuted twin: same squares, same colours, other piece types
+            let twin = match type_permuted_twin(&mo.board) {
+                Some(t) => t,
+                None => return,
+            };
+            let t = match engine_from_position(&twin, mo.gold_to_move, 7) {
+                Ok(t) => t,
+                Err(_) => return,
+            };
+            let _ = guard(|| {
+                let _ = t.valid_actions();
+                let _ = t.valid_actions_no_rep();
+                let _ = t.is_terminal();
+                let _ = t.has_move(t.piece_board());
+                let _ = t.can_pass(true);
+                let _ = t.transposition_hash();
+                for a in own_actions.iter() {
+                    if let Action::Move(sq, _) = a {
+                        if t.piece_board().piece_type_at_square(sq).is_some() {
+                            let _ = t.trapped_animal_for_action(a);
+                        }
+                    }
+                }
+                for a in t.valid_actions_no_rep().iter().take(40) {
+                    let _ = t.trapped_animal_for_action(a);
+                    let _ = t.take_action(a);
+                }
+            });
+            // the state's own has_move with the twin's board, asked last
+            let _ = guard(|| {
+                let _ = eng.has_move(t.piece_board());
+            });
+        }
+    }
 }
 
 pub struct WalkEnd {
@@ -827,7 +833,7 @@ pub fn walk(
         obs.on_state(&v, st).map_err(|f| wf(f, &trace))?;
         mem.seen.insert(mo.board);
         if opts.interfere && !mo.setup && (fp_combine(aux, i as u64 ^ 0x1f1f) & 3) == 0 {
-            interfere_with(&eng, &mo);
+            interfere_with(&eng, &mo, [0u8, 0, 1, 2][((fp_combine(aux, i as u64 ^ 0x2e2e) >> 3) & 3) as usize]);
             st.bump("states_observed_again_after_interference");
             // observed twice: first the object that was already queried (right after the twin), then a
             // fresh object of the same state (rebuilt through the constructors) whose very first query is
@@ -981,14 +987,16 @@ pub fn walk(
         i += 1;
     }
     if opts.inject == Inject::AtEnd(VARIANT_INTERFERE) {
-        interfere_with(&eng, &mo);
         let fail_with = |f: Fail, trace: &Trace| {
             let mut t = trace.clone();
             t.fork = Some(VARIANT_INTERFERE);
             WalkFail { fail: f, trace: t, inconclusive: false }
         };
-        let v2 = View::new(&eng, &mo, false);
-        obs.on_state(&v2, st).map_err(|f| fail_with(f, &trace))?;
+        for which in 0..3u8 {
+            interfere_with(&eng, &mo, which);
+            let v2 = View::new(&eng, &mo, false);
+            obs.on_state(&v2, st).map_err(|f| fail_with(f, &trace))?;
+        }
         if let Some((fr, _)) = fork_with_history(&eng, &mo, &[]) {
             let _ = guard(|| {
                 let empty = arimaa_engine_step::PieceBoard::initial();
